@@ -323,6 +323,11 @@ func CheckUciHistory(sc *Scenario, out *UciRunOut, res *RunResult) {
 		}
 	}
 
+	if c12 {
+		checkOptionAudit(out.Hist, res)
+		checkNewGameEqualsFresh(out.Hist, res)
+	}
+
 	// waits
 	for _, w := range out.Waits {
 		if w.Ok {
